@@ -279,3 +279,42 @@ Theorem gen_initmix_mcd_nmix : forall c mx s,
         if Qltb 1 s then D_v09_10 (env [("v09"%string, k'); ("mcd_substeps"%string, s)]) else k').
 Proof. exact GenTie.gen_mcd_nmix. Qed.
 Print Assumptions gen_initmix_mcd_nmix.
+
+(* ---------------------------------------------------------------------------------------------
+   Cell set-up of a TRANSPORT run (read_transport); cell_data persists between runs of one instance *)
+From IPV.C11 Require Import Setup SetupProofs.
+From IPV.Gen Require Import Gen_C11_setup.
+
+(* a later run with MORE cells and no -lengths is a column of equal 1 m cells, whatever the former run left behind:
+   closed diffusion conserves the inventory for all time *)
+Theorem grown_column_default_lengths_conserves :
+  forall (old cc : nat) (prevL prevD gd : list Q) (dc ts : Q) (b1 b2 : Z) (cd : bool) (cL cR : Q) (k : nat) (cs : list Q),
+  (old < max_cells cc [] gd)%nat -> b1 <> 1%Z -> b2 <> 1%Z -> List.length cs = max_cells cc [] gd ->
+  let c := setup_cfg old cc prevL prevD [] gd dc ts 0 b1 b2 cd in
+  total (transport c cL cR k cs) == total cs.
+Proof. exact SetupProofs.grown_column_default_lengths_conserves. Qed.
+Print Assumptions grown_column_default_lengths_conserves.
+
+(* a later run with MORE cells, no -dispersivities and no diffusion is a pure shift, whatever the former run left behind *)
+Theorem grown_column_default_disp_exact_shift :
+  forall (old cc : nat) (prevL prevD gl : list Q) (dc ts : Q) (sh b1 b2 : Z) (cd : bool) (cL cR : Q) (cs : list Q) (i : nat),
+  (old < max_cells cc gl [])%nat -> dc * ts == 0 -> b1 <> 1%Z -> b2 <> 1%Z -> (i < List.length cs)%nat ->
+  let c := setup_cfg old cc prevL prevD gl [] dc ts sh b1 b2 cd in
+  (sh = 1%Z -> nth i (transport c cL cR 1 cs) 0 = nth i (cL :: cs) 0) /\
+  (sh = (-1)%Z -> nth i (transport c cL cR 1 cs) 0 = nth (S i) (cs ++ [cR]) 0).
+Proof. exact SetupProofs.grown_column_default_disp_exact_shift. Qed.
+Print Assumptions grown_column_default_disp_exact_shift.
+
+(* T-gen: loops, guards and targets of the set-up blocks of the current read_transport are the ones Setup.v transcribes *)
+Theorem gen_setup_shape : Gen_C11_setup.shape_setup = GenTie.expected_shape_setup.
+Proof. exact GenTie.shape_setup_ok. Qed.
+Print Assumptions gen_setup_shape.
+
+Theorem gen_setup_max_cells : forall (cc : nat) (gl gd : list Q),
+  inject_Z (Z.of_nat (max_cells cc gl gd)) ==
+  (let c := inject_Z (Z.of_nat cc) in let nl := inject_Z (Z.of_nat (List.length gl)) in let nd := inject_Z (Z.of_nat (List.length gd)) in
+   let m0 := S_max_cells_1 (env [("count_cells"%string, c)]) in
+   let m1 := if Qltb m0 nl then S_max_cells_2 (env [("v00"%string, nl)]) else m0 in
+   if Qltb m1 nd then S_max_cells_3 (env [("v01"%string, nd)]) else m1).
+Proof. exact GenTie.gen_setup_max_cells. Qed.
+Print Assumptions gen_setup_max_cells.
